@@ -148,8 +148,8 @@ class ClassInfo:
                 if any(d.endswith('.deleter') for d in decos):
                     continue
                 self.methods[m.name] = m
-                if 'property' in decos:
-                    self.props.add(m.name)
+                if 'property' in decos or 'cached_property' in decos or 'functools.cached_property' in decos:
+                    self.props.add(m.name)           # a memoised property is read like a property; that its memo is dropped in time is a rule of its own
             elif isinstance(m, ast.Assign):
                 for t in m.targets:
                     if isinstance(t, ast.Name):
